@@ -200,7 +200,7 @@ func (g *G) hook(tag, n int) nm.Hook {
 func (g *G) hooks(tag int) *nm.Hooks {
 	h := &nm.Hooks{}
 	lists := []*[]nm.Hook{&h.Prestart, &h.CreateRuntime, &h.CreateContainer, &h.StartContainer, &h.Poststart, &h.Poststop}
-	for n := 0; n <= g.r.Intn(3); n++ {
+	for n := 0; n <= g.r.Intn(4); n++ {
 		l := lists[g.r.Intn(6)]
 		*l = append(*l, g.hook(tag, n))
 	}
@@ -238,7 +238,7 @@ func (g *G) container(id string, rich bool) *nm.Container {
 	if g.r.Intn(4) != 0 {
 		c.Args = []string{"/bin/app", "--flag", id}[:1+g.r.Intn(3)]
 	}
-	if g.r.Intn(3) == 0 {
+	if g.r.Intn(2) == 0 {
 		c.Hooks = g.hooks(0)
 	}
 	for _, t := range rlTypes {
